@@ -29,16 +29,19 @@ def confirm(src, prop, name):
     envp = ""
     if os.path.exists(os.path.join(src, "env")):
         envp = " ".join("%s='%s'" % tuple(l.strip().split("=", 1)) for l in open(os.path.join(src, "env")) if "=" in l) + " "
+    feat = ""
+    if os.path.exists(os.path.join(src, "features")):
+        feat = " --features " + open(os.path.join(src, "features")).read().strip()
     try:
         demo = os.path.join(wt, "tests", "seed_demo.rs")
         shutil.copy(os.path.join(src, "demo.rs"), demo)
-        rc, out = sh(envp + "cargo test --offline -j 6 --test seed_demo 2>&1 | tail -15", cwd=wt)
+        rc, out = sh(envp + "cargo test --offline -j 6 --test seed_demo" + feat + " 2>&1 | tail -15", cwd=wt)
         res["demo_passes_without_change"] = "test result: ok" in out and "FAILED" not in out
         rc, out = sh("git apply %s" % os.path.join(src, "patch.diff"), cwd=wt)
         res["applies"] = rc == 0
         if rc != 0:
             print(out)
-        rc, out = sh(envp + "cargo test --offline -j 6 --test seed_demo 2>&1 | tail -25", cwd=wt)
+        rc, out = sh(envp + "cargo test --offline -j 6 --test seed_demo" + feat + " 2>&1 | tail -25", cwd=wt)
         res["demo_fails_with_change"] = "FAILED" in out or "failed" in out
         os.remove(demo)
         rc, out = sh("cargo test --offline -j 6 --workspace --no-fail-fast 2>&1 | grep -E 'test result|FAILED|error(\\[|:)' | head -20", cwd=wt)
@@ -53,7 +56,7 @@ def confirm(src, prop, name):
         return 1
     d = os.path.join(SEEDED, "%s-%s" % (prop, name))
     os.makedirs(d, exist_ok=True)
-    for f in ("patch.diff", "demo.rs", "notes.md", "env"):
+    for f in ("patch.diff", "demo.rs", "notes.md", "env", "features"):
         if os.path.exists(os.path.join(src, f)):
             shutil.copy(os.path.join(src, f), d)
     meta = dict(property=prop, name=name, confirmed=res, confirmed_at=time.strftime("%Y-%m-%dT%H:%M:%S"),
